@@ -17,6 +17,7 @@
 //        dom     build/mutate/serialise a private DOM: prog (line oriented, see runDom)
 //        regex   pat opt in.<k>...
 //        xcode   enc ('' = local code page via XMLString::transcode) text
+//        storm   s.<k> reps : xcode-storm, results compared in the thread with expectations computed before the barrier
 //        life    seq (comma list of s1 s2 d l w), lifo
 //        msg     which (comma list of ints)
 //   The process does XMLPlatformUtils::Initialize(), (optionally) builds+locks the pool, runs the requested
@@ -333,6 +334,58 @@ static std::string runXcode(const Req& r, FacSet& fac) {
 }
 
 // ------------------------------------------------------------------------------------------------
+// xcode-storm: R rounds of XMLString::transcode both ways (local code page transcoder = ONE process-wide ICU
+// converter behind ICULCPTranscoder::fMutex) over a set of mostly non-ASCII strings.  ICU is not instrumented, so a
+// missing lock is invisible to ThreadSanitizer: every result is compared IN THE THREAD with the expected bytes/units
+// that the main thread computed single-threaded before the barrier.  fields: s.<k> (escaped strings), reps
+// ------------------------------------------------------------------------------------------------
+struct StormExp {
+    std::vector<std::vector<XMLCh> > src;     // NUL terminated
+    std::vector<std::string> bytes;           // expected local-code-page form
+    std::vector<std::vector<XMLCh> > back;    // expected result of transcoding `bytes` back (NUL terminated)
+};
+static StormExp* stormPrepare(const Req& r) {
+    MemoryManager* mm = XMLPlatformUtils::fgMemoryManager;
+    StormExp* e = new StormExp;
+    for (int k = 0;; k++) {
+        Req::const_iterator it = r.find("s." + std::to_string(k));
+        if (it == r.end()) break;
+        U u(it->second);
+        e->src.push_back(u.v);
+        char* c = XMLString::transcode(u.c(), mm);
+        e->bytes.push_back(c ? std::string(c) : std::string("\x01<null>"));
+        XMLCh* w = c ? XMLString::transcode(c, mm) : 0;
+        std::vector<XMLCh> b; if (w) b.assign(w, w + XMLString::stringLen(w) + 1);
+        e->back.push_back(b);
+        if (c) XMLString::release(&c, mm);
+        if (w) XMLString::release(&w, mm);
+    }
+    return e;
+}
+static std::string runStorm(const Req& r, FacSet& fac, const StormExp* e) {
+    MemoryManager* mm = XMLPlatformUtils::fgMemoryManager;
+    fac.insert("lcp"); fac.insert("lcp-storm");
+    if (!e || e->src.empty()) return "storm\tNOEXP\n";
+    long reps = geti(r, "reps", 1000), bad = 0, nulls = 0, done = 0;
+    std::string first;
+    for (long i = 0; i < reps; i++) {
+        size_t k = (size_t)i % e->src.size();
+        char* c = XMLString::transcode(&e->src[k][0], mm);
+        done++;
+        if (!c) { nulls++; if (first.empty()) first = "null at round " + std::to_string(i); continue; }
+        bool ok = e->bytes[k] == c;
+        if (ok && (i & 1)) {
+            XMLCh* w = XMLString::transcode(c, mm);
+            if (!w) { nulls++; ok = true; if (first.empty()) first = "null (to XMLCh) at round " + std::to_string(i); }
+            else { ok = !e->back[k].empty() && XMLString::equals(w, &e->back[k][0]); XMLString::release(&w, mm); }
+        }
+        if (!ok) { bad++; if (first.empty()) first = "round " + std::to_string(i) + " string " + std::to_string(k) + " got " + hex((const XMLByte*)c, strlen(c)).substr(0, 120) + " expected " + hex((const XMLByte*)e->bytes[k].data(), e->bytes[k].size()).substr(0, 120); }
+        XMLString::release(&c, mm);
+    }
+    return "storm\trounds=" + std::to_string(done) + "\tmismatch=" + std::to_string(bad) + "\tnull=" + std::to_string(nulls) + "\t" + first + "\n";
+}
+
+// ------------------------------------------------------------------------------------------------
 // create / destroy parsers and serialisers
 // ------------------------------------------------------------------------------------------------
 struct NullSource : public DOMImplementationSource {
@@ -417,8 +470,9 @@ static std::string runMsg(const Req& r, FacSet& fac) {
 }
 
 // ------------------------------------------------------------------------------------------------
-static std::string runItem(const Req& it, XMLGrammarPool* pool, FacSet& fac) {
+static std::string runItem(const Req& it, XMLGrammarPool* pool, FacSet& fac, const StormExp* se) {
     std::string k = get(it, "k");
+    if (k == "storm") return runStorm(it, fac, se);
     if (k == "parse") return runParseItem(it, 0, fac);
     if (k == "pparse") return pool ? runParseItem(it, pool, fac) : std::string("NOPOOL\n");
     if (k == "dom") return runDom(it, fac);
@@ -432,6 +486,7 @@ static std::string runItem(const Req& it, XMLGrammarPool* pool, FacSet& fac) {
 struct ThreadCtx {
     int idx = 0;
     const std::vector<Req>* items = 0;
+    const std::vector<StormExp*>* storm = 0;   // per item: expectation prepared by the main thread (read-only), or 0
     XMLGrammarPool* pool = 0;
     pthread_barrier_t* bar = 0;
     unsigned long long seed = 0; int perturb = 0;
@@ -453,7 +508,7 @@ static void* threadMain(void* p) {
             if (m == 1) { sched_yield(); c->yields++; }
             else if (m == 2) { usleep((useconds_t)((x >> 8) % 301)); c->sleeps++; }
         }
-        c->results[j] = runItem((*c->items)[j], c->pool, c->facs[j]);
+        c->results[j] = runItem((*c->items)[j], c->pool, c->facs[j], c->storm ? (*c->storm)[j] : 0);
     }
     return 0;
 }
@@ -564,13 +619,19 @@ int main(int argc, char** argv) {
             else if (warm[i] == "rangetoken") warmRangeToken(get(top, "warmcats"));
         }
 
+        // expectations of the xcode-storm items, computed single-threaded (this touches nothing but the local code page transcoder)
+        std::vector<std::vector<StormExp*> > storm(n);
+        for (int t = 0; t < n; t++)
+            for (size_t j = 0; j < items[t].size(); j++)
+                storm[t].push_back(get(items[t][j], "k") == "storm" ? stormPrepare(items[t][j]) : 0);
+
         pthread_barrier_t bar;
         pthread_barrier_init(&bar, 0, (unsigned)n);
         std::vector<ThreadCtx> ctx(n), ref(n);
         std::vector<pthread_t> th(n);
         unsigned long long seed = strtoull(get(top, "seed", "0").c_str(), 0, 10);
         int perturb = (int)geti(top, "perturb", 0);
-        for (int t = 0; t < n; t++) { ctx[t].idx = t; ctx[t].items = &items[t]; ctx[t].pool = pool; ctx[t].bar = &bar; ctx[t].seed = seed; ctx[t].perturb = perturb; }
+        for (int t = 0; t < n; t++) { ctx[t].idx = t; ctx[t].items = &items[t]; ctx[t].storm = &storm[t]; ctx[t].pool = pool; ctx[t].bar = &bar; ctx[t].seed = seed; ctx[t].perturb = perturb; }
         if (geti(top, "st", 0)) {
             // single-threaded control run (used by the driver to tell a concurrency failure from a plain defect of one work item)
             for (int t = 0; t < n; t++) { ctx[t].bar = 0; ctx[t].perturb = 0; threadMain(&ctx[t]); }
@@ -581,7 +642,7 @@ int main(int argc, char** argv) {
         pthread_barrier_destroy(&bar);
 
         // single-threaded reference run of the same lists (same process, same pool)
-        for (int t = 0; t < n; t++) { ref[t].idx = t; ref[t].items = &items[t]; ref[t].pool = pool; ref[t].bar = 0; ref[t].perturb = 0; threadMain(&ref[t]); }
+        for (int t = 0; t < n; t++) { ref[t].idx = t; ref[t].items = &items[t]; ref[t].storm = &storm[t]; ref[t].pool = pool; ref[t].bar = 0; ref[t].perturb = 0; threadMain(&ref[t]); }
 
         // summary
         bool equal = true; std::string mism;
